@@ -139,7 +139,9 @@ C02StoreCauses(n, e) ==
                  /\ OkIdpEvs(n)[1].e.grant = "refresh_token"
         login == Len(iss) > 0 /\ iss[1].e.grant = "authorization_code"
     IN  IF Len(iss) = 0 /\ ~kept THEN {"stored-token-not-from-this-exchange"}
-        ELSE IF Len(iss) = 0 THEN {}
+        \* a token kept by a refresh is bound again with the merged result: it must (still) verify under the key set configured now
+        ELSE IF Len(iss) = 0 THEN (IF Has(idtok, id) /\ idtok[id].signedBy \in {"k12", "k3"} /\ idtok[id].signedBy # OkIdpEvs(n)[1].e.keySetNow
+                                   THEN {"kept-token-does-not-verify-under-the-current-key-set"} ELSE {})
         ELSE (IF ~iss[1].e.issued.id.sigOK THEN {"bad-signature:" \o iss[1].e.issued.id.class} ELSE {})
           \cup (IF ~iss[1].e.issued.id.audOK THEN {"bad-audience:" \o iss[1].e.issued.id.class} ELSE {})
           \cup (IF login /\ (~Has(logins, e.sid) \/ iss[1].e.issued.id.nonce # logins[e.sid].nonce)
@@ -332,6 +334,9 @@ C11RespCauses(n, r) ==
             ELSE LET m == ExpectedMerge(old, e.issued, rf[1].at)
                      a == w[Len(w)].e.arg
                  IN (IF a.at # m.at THEN {"merge-access-token"} ELSE {})
+                    \* the merged result is validated like a fresh one: an ID token kept from before must still verify under the key set configured now
+                    \cup (IF ~e.issued.id.ex /\ Has(idtok, old.id) /\ idtok[old.id].signedBy \in {"k12", "k3"} /\ idtok[old.id].signedBy # e.keySetNow
+                          THEN {"ok-although-the-merged-result-does-not-validate"} ELSE {})
                     \cup (IF a.rt # m.rt THEN {"merge-refresh-token"} ELSE {})
                     \cup (IF a.id # m.id /\ ~(e.issued.id.ex /\ ~e.issued.id.compact /\ a.id = old.id)   \* KeepOldIdToken: an unparsable id_token counts as omitted
                           THEN {"merge-id-token"} ELSE {})
